@@ -12,16 +12,25 @@ import (
 )
 
 func Go(fn func()) {
+	if verifGo(fn) {
+		return
+	}
 	gopool.Go(fn)
 }
 
 type Buffer []byte
 
 func GetBuf(size int) Buffer {
+	if b := verifGetBuf(size); b != nil {
+		return b
+	}
 	return bytespool.Get(size)
 }
 
 func ReleaseBuf(b Buffer) {
+	if verifReleaseBuf(b) {
+		return
+	}
 	bytespool.Release(b)
 }
 
